@@ -71,7 +71,7 @@ Definition round64 (m em : Z) : fl :=
   let half := Z.shiftl 1 (shift - 1) in
   let q' := if (half <? rem)%Z || ((half =? rem)%Z && Z.odd q) then (q + 1)%Z else q in
   if (q' =? 0)%Z then fl_zero
-  else if (1024 <=? Z.log2 q' + 1 + e)%Z then fl_inf
+  else if (1024 <? Z.log2 q' + 1 + e)%Z then fl_inf
   else odd_norm 64 q' e.
 
 (* the correctly rounded value of D * 10^E, D > 0 with nd decimal digits *)
